@@ -93,6 +93,28 @@ func gen(g *vh.Gen) {
 	emit(0, []string{a(1, 1), a(1, 2), a(1, 3), a(0, 4), "C.1"}, a(1, 5))
 	emit(0, nil, "p.3")
 	emit(0, nil, "r.3.99")
+	// histories with several killed operations, reopens and completed operations interleaved
+	for i := 0; i < g.N(60, 3000); i++ {
+		s := &genState{g: g}
+		cap := []int{0, 0, 1, 2, 3}[g.Intn(5)]
+		mbs := [][]int{{0}, {0, 1}, {0, 2, 3}}[g.Intn(3)]
+		var items []string
+		for j, n := 0, 3+g.Intn(8); j < n; j++ {
+			switch {
+			case g.Chance(0.1):
+				items = append(items, "R")
+			case g.Chance(0.08):
+				items = append(items, "v")
+			default:
+				it := s.op(mbs, 0.6)
+				if g.Chance(0.4) {
+					it += fmt.Sprintf("@%d", g.Intn(16))
+				}
+				items = append(items, it)
+			}
+		}
+		g.Emit("chist", vh.I(cap), pool, strings.Join(items, ","))
+	}
 	for i := 0; i < g.N(26, 700); i++ {
 		s := &genState{g: g}
 		cap := []int{0, 0, 1, 2, 3}[g.Intn(5)]
